@@ -71,6 +71,7 @@ func (r *Run) checkSpeciatePartition(label string) {
 		return
 	}
 	r.PathsExplored += len(paths)
+	flags := &selectionFlags{fn: fn, locals: locals, loops: loops, outer: sh.outer, memo: map[interface{}]bool{}}
 	nBack := 0
 	for _, ip := range paths {
 		if ip.End != "back" {
@@ -114,22 +115,21 @@ func (r *Run) checkSpeciatePartition(label string) {
 		foundingJustified := func() bool {
 			justified := false
 			for _, g := range ip.Conds {
-				gt := tm.Of(g.Cond)
-				if gt.Op == "bin" && gt.Name == "==" && g.True && gt.Args[0].String() == "len(recv.Species)" && gt.Args[1].String() == "0" {
+				// no species exist: len(recv.Species) == 0 in any spelling
+				if LenZeroFact(g.Cond, g.True, func(v ssa.Value) bool { return tm.Of(v).String() == "recv.Species" }) > 0 {
 					justified = true
 				}
-				if gt.Op == "bin" && gt.Name == "!=" && !g.True && gt.Args[1].Op == "nil" {
-					justified = true
-				}
-				if gt.Op == "bin" && gt.Name == "==" && g.True && gt.Args[1].Op == "nil" {
+				// a pointer was found nil (x == nil, nil == x, !(x != nil), ...)
+				if GuardNilness(g, func(ssa.Value) bool { return true }) > 0 {
 					justified = true
 				}
 				// !done, where done is a flag that is true exactly when a species was selected: an SSA-promoted
 				// local or a boolean field of a struct-valued local
-				if _, isPhi := g.Cond.(*ssa.Phi); isPhi && !g.True {
+				// (that it is: every scan step that selects a species raises it, none takes it back - selectionFlags)
+				if ph, isPhi := g.Cond.(*ssa.Phi); isPhi && !g.True && flags.phiSound(ph) {
 					justified = true
 				}
-				if c, isCell := cellOfLoad(locals, g.Cond); isCell && !g.True && c.typ() != nil && typeShort(c.typ()) == "bool" {
+				if c, isCell := cellOfLoad(locals, g.Cond); isCell && !g.True && c.typ() != nil && typeShort(c.typ()) == "bool" && flags.cellSound(c) {
 					justified = true
 				}
 			}
@@ -163,10 +163,8 @@ func (r *Run) checkSpeciatePartition(label string) {
 			okOrg := orgT.Op == "elem" && isParamIdx(orgT.Args[0], 2) && tm.Of(backptrs[0].Addr.(*ssa.FieldAddr).X).String() == orgT.String()
 			nonNil := false
 			for _, g := range ip.Conds {
-				if b, ok := g.Cond.(*ssa.BinOp); ok && (seq.sameValue(b.X, best, loops, sh.outer) || seq.sameValue(b.Y, best, loops, sh.outer)) {
-					if (b.Op == token.NEQ && g.True) || (b.Op == token.EQL && !g.True) {
-						nonNil = true
-					}
+				if GuardNilness(g, func(v ssa.Value) bool { return seq.sameValue(v, best, loops, sh.outer) }) < 0 {
+					nonNil = true
 				}
 			}
 			r.Check(okSame && okOrg && nonNil, lbl, pos, "the organism joins the selected species and points back to it",
@@ -180,7 +178,7 @@ func (r *Run) checkSpeciatePartition(label string) {
 
 // C08 — speciation puts each organism in its nearest compatible species.
 func C08(p *Prog, r *Run) {
-	r.Explanation = "Decided on Population.speciate: (1) full scan: the loop over the species has no exit other than exhaustion; (2) argmin under threshold, over every acyclic path of one scan step: the running best species and best distance change together, exactly when distance < CompatThreshold and distance < best-so-far (strictly, distance on the smaller side), to the current species and its distance; the distance is compatibility(organism's genome, representative's genome, options) with representative = first organism of the species; the best distance starts at a value no distance exceeds; (3) founding: every pass over an organism ends in exactly one of joining the selected species (with back pointer) or founding a new species, the latter exactly when no species exist or none was selected; a new species gets LastSpecies+1 as id (incremented before use, only there) and is created novel. Not decided: the distance itself (C07)."
+	r.Explanation = "Decided on Population.speciate: (1) full scan: the loop over the species has no exit other than exhaustion; (2) argmin under threshold, over every acyclic path of one scan step: the running best species and best distance change together, exactly when distance < CompatThreshold and distance < best-so-far (strictly, distance on the smaller side), to the current species and its distance; the distance is compatibility(organism's genome, representative's genome, options) with representative = first organism of the species; the best distance starts at a value no distance exceeds; (3) founding: every pass over an organism ends in exactly one of joining the selected species (with back pointer) or founding a new species, the latter exactly when no species exist or none was selected; a new species gets LastSpecies+1 as id (incremented before use, only there) and is created novel; a flag tested instead of the selected species (`!done`) counts as 'none was selected' only when every scan step that selects a species raises it and none takes it back; (4) only speciate assigns membership; (5,6) the distance compared is the NEAT distance: dispatch, guarded division and both walks (obligations of C07.1, C07.2, C07.3+4, evaluated here as well); (7) the options compared with are the caller's: speciate reads threshold and distance options from the one Options object its context carries, NewContext/FromContext bind and find it under one key, Options.NeatContext returns on every path a context binding its own receiver and stores nothing, and every caller up to the public constructors hands on the options it was given. Not decided: C07.5/C07.6 (inputs and configured coefficients of the walks, see C07)."
 	sh, why := findSpeciate(p)
 	if sh == nil {
 		r.Rule("C08.0", "shape of speciate", func() { r.Undecided("speciate", "-", why) })
@@ -199,9 +197,12 @@ func C08(p *Prog, r *Run) {
 				nExit++
 				iff, ok := b.Instrs[len(b.Instrs)-1].(*ssa.If)
 				okB := false
-				if ok {
-					ct := tm.Of(iff.Cond)
-					okB = ct.Op == "bin" && ct.Name == "<" && ct.Args[1].String() == "len(recv.Species)" && b.Succs[1] == s
+				if ok && len(b.Succs) == 2 && b.Succs[0] != b.Succs[1] {
+					// what holds on the way out: i >= len(recv.Species), in any spelling
+					if x, y, op, okF := CmpFact(iff.Cond, b.Succs[0] == s); okF {
+						isLen := func(v ssa.Value) bool { return tm.Of(v).String() == "len(recv.Species)" }
+						okB = (isLen(y) && !isLen(x) && (op == token.GEQ || op == token.EQL)) || (isLen(x) && !isLen(y) && (op == token.LEQ || op == token.EQL))
+					}
 				}
 				r.Check(okB, "species-scan.exit", p.Pos(firstBlockPos(b)), "the scan ends by exhaustion of recv.Species",
 					"the scan over the species can be left early (break/return): an organism is placed in the first compatible species instead of the nearest one")
@@ -261,7 +262,7 @@ func C08(p *Prog, r *Run) {
 						if condImpliesEmpty(tf, g, "recv.Organisms") {
 							why = true
 						}
-						if x, y, ok := eqCond(tf, g); ok && ((x.Op == "recv" && y.Op == "nil") || (y.Op == "recv" && x.Op == "nil")) {
+						if GuardNilness(g, func(v ssa.Value) bool { return tf.Of(v).Op == "recv" }) > 0 {
 							why = true
 						}
 					}
@@ -351,25 +352,15 @@ func C08(p *Prog, r *Run) {
 			nv, updVal, knownVal := bestVal.next(ip, seq)
 			underThr, underBest, evaluated := false, false, ip.OnPath(sh.compat)
 			for _, g := range ip.Conds {
-				b, ok := g.Cond.(*ssa.BinOp)
+				// the comparison that holds on this path, with the distance on the left: distance < y
+				x, y, op, ok := CmpFact(g.Cond, g.True)
 				if !ok {
 					continue
 				}
-				x, y, op := b.X, b.Y, b.Op
 				if y == dist {
-					x, y = y, x
-					switch op {
-					case token.GTR:
-						op = token.LSS
-					case token.LSS:
-						op = token.GTR
-					case token.GEQ:
-						op = token.LEQ
-					case token.LEQ:
-						op = token.GEQ
-					}
+					x, y, op = y, x, mirrorCmp(op)
 				}
-				if x != dist || op != token.LSS || !g.True {
+				if x != dist || op != token.LSS {
 					continue
 				}
 				if yt := tm.Of(y); yt.Op == "field" && yt.Name == "CompatThreshold" {
@@ -404,15 +395,9 @@ func C08(p *Prog, r *Run) {
 					if condImpliesEmpty(tm, g, curSpecies+".Organisms") {
 						noRep = true
 					}
-					b, ok := g.Cond.(*ssa.BinOp)
-					if !ok || !((b.Op == token.NEQ && !g.True) || (b.Op == token.EQL && g.True)) {
-						continue
-					}
-					x, y := b.X, b.Y
-					if tm.Of(x).Op == "nil" {
-						x, y = y, x
-					}
-					if tm.Of(y).Op != "nil" {
+					// a value found nil (in any spelling of the test)
+					var x ssa.Value
+					if GuardNilness(g, func(v ssa.Value) bool { x = v; return true }) <= 0 {
 						continue
 					}
 					// the value tested, as it is on this path; a constant nil says nothing about the species
@@ -505,6 +490,14 @@ func C08(p *Prog, r *Run) {
 
 	r.Rule("C08.5", "the distance compared with the threshold is the compatibility formula: Genome.compatibility only dispatches to the two walks (shared with C07.1)", func() {
 		r.c07Dispatch()
+	})
+
+	r.Rule("C08.6", "the distance compared with the threshold is the NEAT distance for either method: a float division by a match counter is guarded (never NaN, which is below no threshold), and both walks account every gene exactly once, as disjoint, excess or matching, and return the formula over the final counters (obligations shared with C07.2 and C07.3+4: a wrong distance makes a farther species the 'nearest', or founds a species although a representative is within the threshold)", func() {
+		r.c08DistanceIsFormula()
+	})
+
+	r.Rule("C08.7", "the threshold, method and coefficients speciation compares with are those of the options object handed in: speciate reads them from the options its context argument carries, FromContext/NewContext bind and find the options under one key, Options.NeatContext returns on every path a context that binds its own receiver (computed from the receiver alone, nothing stored), and every caller up to the public constructors hands on the options it was given - otherwise a population built with options B (e.g. a value copy of A with another CompatThreshold) is speciated by A's threshold: organisms beyond B's threshold join a species, or found one although a representative is within it", func() {
+		r.c08OptionsIdentity()
 	})
 }
 
